@@ -423,6 +423,7 @@ class Prog:
         self.usort_models = {}
         self.func_specs = {}
         self.modular = {}
+        self.global_models = {}     # (module name, global name) -> value standing in for a module-level object
         self.dict_maker = None
         self.use_cvc5 = True
         self.cvc5_ms = int(os.environ.get("PYVC_CVC5_MS", "8000"))
